@@ -50,6 +50,8 @@ class DocBuilder:
        repeat_id  probability of re-using an existing identifier
        redefault  probability (per document) that some scope's default namespace is declared anew between two records
        foreign_formal probability that a record also carries a PROV formal attribute of another kind
+       refused    probability (per document) that the history goes on with edits the library refuses (a second, different value
+                  for a formal attribute of an existing record); the caller catches the error and carries on
        reclock    probability that a time repeats the clock reading of an earlier one under another UTC offset
        twins      probability (per attribute) of repeating an earlier URI-valued attribute with the other kind of value
        malformed  probability of a deliberately invalid argument (error branches)
@@ -61,7 +63,7 @@ class DocBuilder:
         self.w = w
         self.o = dict(clash=0.2, foreign=0.15, value_kinds=None, repeat_id=0.2, malformed=0.05,
                       paths=("new_record", "factory", "conv"), defaults=0.3, bare=True, fulluri=True,
-                      multi=0.2, anon=0.5, dup_formal=0.06, xml=False, subtypes=0.0, plain_binary=0.0, twins=0.0, redefault=0.0, reclock=0.0, foreign_formal=0.0,
+                      multi=0.2, anon=0.5, dup_formal=0.06, xml=False, subtypes=0.0, plain_binary=0.0, twins=0.0, redefault=0.0, reclock=0.0, foreign_formal=0.0, refused=0.0,
                       free_bundle=float(__import__("os").environ.get("VERIF_FREE_BUNDLE", "0.15")))
         self.o.update(opts)
         self.ids = {}        # scope -> list of identifiers used (QualifiedName objects as returned)
@@ -493,7 +495,38 @@ class DocBuilder:
                 cur = self.w.conts[c].get_default_namespace()
                 self.w.set_default(c, g.choice([u for u in DEFAULT_URIS if cur is None or u != cur.uri]))
             self.add_record(g.choice(scopes))
+        if self.o["refused"] and g.chance(self.o["refused"]):
+            self.refused_edits(scopes)
         return d, scopes
+
+    def refused_edits(self, scopes, n=None):
+        """edits the library refuses: a second, different value for a single-valued formal attribute of an existing record.
+        The caller catches the ProvException and carries on with the document; how many were indeed refused is returned"""
+        import datetime as _dt
+        g, w = self.g, self.w
+        done = 0
+        for _ in range(n or g.rng.randint(1, 3)):
+            c = g.choice(scopes)
+            recs = w.conts[c].records
+            cands = []
+            for i, r_ in enumerate(recs):
+                if r_.get_type().localpart == "Membership":
+                    continue
+                for a_, v_ in r_.formal_attributes:
+                    if v_ is not None:
+                        cands.append((i, a_, v_))
+            if not cands:
+                continue
+            i, a_, v_ = g.choice(cands)
+            if isinstance(v_, _dt.datetime):
+                step = _dt.timedelta(days=g.rng.randint(1, 400), seconds=g.rng.randint(0, 86399))
+                v2 = v_ - step if v_.year > 5000 else v_ + step
+            else:
+                v2 = self.w.qname("rf", "http://refused.example/ns#", "other%d" % g.rng.randint(0, 9))
+            err = w.add_attrs(w.rec_at(c, i), [(a_ if g.chance(0.7) else str(a_), v2)])
+            if err is not None:
+                done += 1
+        return done
 
 
 def all_containers(w, roots):
